@@ -100,6 +100,8 @@ func runC13(p *core.Program, r *core.Report) {
 	r.NotDecided = []string{"sequence semantics over histories", "sort.Sort's behaviour with a non-strict less (all comparators return true on equality; reported as information)", "negative indices rely on the runtime's bounds panic"}
 	r.Rule("C13.bounds", "get/set reject i >= size before indexing; add ensures capacity then stores at table[size] and counts once; ensure grows enough and copies", 18)
 	r.Rule("C13.serial", "typed list Write~Read agree on the layout", 5)
+	r.Rule("C13.no-sub-compare", "no comparison used for sorting is computed as a (narrowed) difference of wide integers", 1)
+	subtractCompareLint(p, r, "C13.no-sub-compare", []string{"util/list", "util/compare"})
 	r.Rule("C13.sort", "comparators order by the primary list in the requested direction and break ties by the child list in the child's direction (all 18 orderings)", 9)
 	r.Rule("C13.perm", "sorting returns the original indices of the sorted (index,value) pairs: one pair per index", 9)
 	r.Rule("C13.filter", "filtering appends get(index[i]) for i ascending", 5)
